@@ -10,6 +10,8 @@ package main
 //   OPSNAP <wid> <index> <term> <conf>
 //   OPCUT <wid>                       (ignored: cuts happen where the real code cuts)
 //   MUT READ <si> <st>
+//   MUT K <op>                              process-kill image taken when script operation <op>
+//                                           returned (files copied while the WAL is still open)
 //   MUT M <op> <j> <rel> <val> <si> <st>    byte <rel> of the frame of the j-th record written by
 //                                           script operation <op> (-1 = Create; the records of a
 //                                           segment cut count as written by the operation that
@@ -41,6 +43,8 @@ type scriptRun struct {
 	outOps  []genOp   // with cut pseudo-operations inserted where the code cut
 	nrec    []int     // records written by ops[i] (including those of a cut it triggered)
 	dirAt   []int     // index into dirs of the synced state taken after ops[i], or -1
+	kills   []dirSnap // process-kill image after ops[i] (files as another process sees them when the call returned)
+	killNops []int    // number of out-ops (cuts included) completed when kills[i] was taken
 	dirs    []dirSnap // dirs[0] = after Create
 	final   dirSnap
 	scratch string
@@ -91,20 +95,19 @@ func runScript(root, wid string, segsize int64, meta []byte, ops []genOp, didc *
 	}
 	var prev raftpb.HardState
 	nfiles := 1
+	total := 3 // records written so far: Create wrote crc, metadata, snapshot
 	for _, op := range ops {
-		synced := false
 		cnt := 0
 		switch op.kind {
 		case "snap":
 			if err := w.SaveSnapshot(op.snap); err != nil {
 				return nil, fmt.Errorf("SaveSnapshot: %v", err)
 			}
-			synced, cnt = true, 1
+			cnt = 1
 		case "save":
 			if err := w.Save(op.st, op.ents); err != nil {
 				return nil, fmt.Errorf("Save: %v", err)
 			}
-			synced = raft.MustSync(op.st, prev, len(op.ents))
 			cnt = len(op.ents)
 			if !raft.IsEmptyHardState(op.st) {
 				prev = op.st
@@ -114,6 +117,8 @@ func runScript(root, wid string, segsize int64, meta []byte, ops []genOp, didc *
 			continue
 		}
 		sr.outOps = append(sr.outOps, op)
+		// the process-kill image: the files as they are now, the WAL still open (nothing is
+		// closed, flushed or synced by the harness)
 		fs, err := readWalDir(dir)
 		if err != nil {
 			return nil, err
@@ -121,19 +126,22 @@ func runScript(root, wid string, segsize int64, meta []byte, ops []genOp, didc *
 		if len(fs) > nfiles {
 			nfiles = len(fs)
 			sr.outOps = append(sr.outOps, genOp{kind: "cut"})
-			synced = true
 			cnt += 2 // crc + metadata records at the head of the new segment
 			if !raft.IsEmptyHardState(prev) {
 				cnt++
 			}
 		}
+		total += cnt
 		sr.nrec = append(sr.nrec, cnt)
-		if synced {
-			k, err := takeDir()
-			if err != nil {
-				return nil, err
-			}
-			sr.dirAt = append(sr.dirAt, k)
+		*didc++
+		sr.kills = append(sr.kills, dirSnap{id: fmt.Sprintf("d%d", *didc), nops: -1, files: fs})
+		sr.killNops = append(sr.killNops, len(sr.outOps))
+		// a sync point is where the real code made everything written so far visible in the
+		// files (decided by looking at the files, not by re-computing raft.MustSync)
+		if countFrames(fs) == total {
+			*didc++
+			sr.dirs = append(sr.dirs, dirSnap{id: fmt.Sprintf("d%d", *didc), nops: len(sr.outOps), files: fs, synced: true})
+			sr.dirAt = append(sr.dirAt, len(sr.dirs)-1)
 		} else {
 			sr.dirAt = append(sr.dirAt, -1)
 		}
@@ -288,6 +296,14 @@ func scriptCmd(args []string) error {
 				continue
 			}
 			fmt.Fprintf(w, "M %s %s %s %s %d %d %d\n", id, sr.final.id, m[5], m[6], fi, off+rel, val)
+		case m[0] == "K" && len(m) == 2:
+			op := atoi(m[1])
+			if op < 0 || op >= len(sr.kills) {
+				invalid()
+				continue
+			}
+			emitDir(w, wid, sr.kills[op])
+			fmt.Fprintf(w, "K %s %s 0 0 %d\n", id, sr.kills[op].id, sr.killNops[op])
 		case m[0] == "MFREE" && len(m) == 5:
 			li := len(sr.final.files) - 1
 			_, end := frameOffsets(sr.final.files[li].data)
